@@ -73,8 +73,8 @@ pub open spec fn from_wellformed(out: Seq<CompiledItem>, inclusive: bool, collis
 """
 
 INV = """invariant
-    $K <= $V.len(), $V@.len() == b0 + st + 1, final_body_compiled_len == b0 + st + 1,
-    step_compiled_len == st, st >= 1, b0 < 0x1000_0000, st < 0x1000_0002, b0 == body0.len(),
+    $K <= $V.len(), $V@.len() == b0 + st + 1,
+    st >= 1, b0 < 0x1000_0000, st < 0x1000_0002, b0 == body0.len(),
     full0.len() == b0 + st + 1,
     forall|i: int| 0 <= i < b0 ==> #[trigger] full0[i] == body0[i],
     forall|i: int| b0 <= i < b0 + st + 1 ==> !(#[trigger] full0[i] is Break) && !(full0[i] is Continue),
@@ -82,6 +82,13 @@ INV = """invariant
     forall|i: int| 0 <= i < b0 ==> (#[trigger] body0[i] is Continue ==> body0[i]->Continue_0 >= 1),
     forall|i: int| 0 <= i < $K && i < b0 ==> #[trigger] from_item_ok($V@[i], body0[i], q + 1 + i, q, b0, st),
 decreases $V.len() - $K,"""
+BEFORE = """let ghost full0 = $V@; let ghost q = pre + 3;
+proof {
+    assert(forall|i: int| 0 <= i < b0 ==> #[trigger] full0[i] == body0[i]);
+    assert forall|i: int| b0 <= i < b0 + st + 1 implies !(#[trigger] full0[i] is Break) && !(full0[i] is Continue) by {
+        if i < b0 + st { assert(full0[i] == step0[i - b0]); }
+    }
+}"""
 PRE = """let ghost before = $V@;
 proof {
     assert(before[idx as int] == full0[idx as int]);
@@ -113,24 +120,16 @@ def build(repo):
         # ghost
         Rule("R11", "let mut $v = value_compile ( & self . val_end , state ) ? ;",
              ["let mut $v = value_compile ( & self . val_end , state ) ? ;", G("assume(val_start.len() < 0x1000_0000 && $v.len() < 0x1000_0000);  // stated assumption: block lengths < 2^28\nlet ghost a0 = val_start@.len() as int;")], count=1),
-        Rule("R11", "let pre_condition_len = $$e ;", ["let pre_condition_len = $$e ;", G("let ghost pre = pre_condition_len as int;")], count=1),
+        Rule("R11", f"result . push ( mk_instr ( {ids['store_fast']}u8 , args1 ( ( end_loop_register ) . to_vs ( ) ) ) ) ;",
+             [f"result . push ( mk_instr ( {ids['store_fast']}u8 , args1 ( ( end_loop_register ) . to_vs ( ) ) ) ) ;", G("let ghost pre = result@.len() as int;")], count=1),
         Rule("R11", "let mut $v = block_compile ( $$a ) ? ;",
              ["let mut $v = block_compile ( $$a ) ? ;",
               G("let ghost body0 = $v@; let ghost b0 = body0.len() as int;\nassume($v.len() < 0x1000_0000);  // stated assumption: block lengths < 2^28")], count=1),
-        Rule("R11", "let step_compiled_len = $$e ;",
-             ["let step_compiled_len = $$e ;",
-              G("let ghost st = step_compiled_len as int; let ghost step0 = step_compiled@;\n"
-                "proof { assert(no_placeholders(step0)) by { assert forall|i: int| 0 <= i < step0.len() implies !(#[trigger] step0[i] is Break) && !(step0[i] is Continue) by { } } }")], count=1),
-        Rule("R11", "let final_body_compiled_len = $$e ;",
-             ["let final_body_compiled_len = $$e ;",
-              G("""let ghost full0 = body_compiled@; let ghost q = pre + 3;
-proof {
-    assert(forall|i: int| 0 <= i < b0 ==> #[trigger] full0[i] == body0[i]);
-    assert forall|i: int| b0 <= i < b0 + st + 1 implies !(#[trigger] full0[i] is Break) && !(full0[i] is Continue) by {
-        if i < b0 + st { assert(full0[i] == step0[i - b0]); }
-    }
-}""")], count=1),
-        for_each_iter_mut_enumerate("f", INV, PRE, POST),
+        Rule("R11", "body_compiled . append ( & mut step_compiled ) ;",
+             [G("let ghost st = step_compiled@.len() as int; let ghost step0 = step_compiled@;\n"
+                "proof { assert(no_placeholders(step0)) by { assert forall|i: int| 0 <= i < step0.len() implies !(#[trigger] step0[i] is Break) && !(step0[i] is Continue) by { } } }"),
+              "body_compiled . append ( & mut step_compiled ) ;"], count=1),
+        for_each_iter_mut_enumerate("f", INV, PRE, POST, before=BEFORE),
         Rule("R11", "result . append ( & mut body_compiled ) ;", [G("let ghost bc = body_compiled@;"), "result . append ( & mut body_compiled ) ;"], count=1),
         Rule("R11", "Ok ( result )",
              [G("""proof {
@@ -151,6 +150,7 @@ proof {
         opcode_consts(ids, ["while_loop", "jmp_pop", "store_fast", "load_fast", "bin_op", "bin_op_assign", "delete_name_scoped", "make_int"]) + SPEC + f"""
 impl NumberLoop {{
     //@ OBL C01.from.layout
+    #[verifier::loop_isolation(false)]
     pub fn compile(&self, state: &CompilationState) -> (r: Result<Vec<CompiledItem>, VErr>)
         ensures r is Ok ==> from_wellformed(r->Ok_0@, self.inclusive, self.name_is_collision, self.step.is_some())
     {{
